@@ -10,7 +10,7 @@ trap 'rm -rf "$scratch"' EXIT
 rsync -a --exclude .git /repo/ "$scratch/"
 ( cd "$scratch" && patch -p1 -s --fuzz=3 < "$d/patch.diff" ) || { echo "patch does not apply"; exit 2; }
 for p in "$@"; do
-  out=$(./bin/govc -repo "$scratch" -prop $p -tier quick -work /tmp/seedwork.$$ 2>&1)
+  out=$(VERIF_NO_RETRY=1 VERIF_MAX_FAILURES=2 ./bin/govc -repo "$scratch" -prop $p -tier quick -work /tmp/seedwork.$$ 2>&1)
   rm -rf /tmp/seedwork.$$
   if echo "$out" | grep -q "^VIOLATION"; then
     echo "$p DETECTED $(echo "$out" | grep '^VIOLATION' | sed 's/.*obligation=\([^ ]*\).*/\1/' | sort -u | head -4 | paste -sd,)"
